@@ -22,6 +22,7 @@ import (
 	"reduction.dev/reduction/proto/jobpb"
 	"reduction.dev/reduction/proto/snapshotpb"
 	"reduction.dev/reduction/proto/workerpb"
+	"reduction.dev/reduction/rpc"
 	"reduction.dev/reduction/workers/operator"
 	"verif/lib"
 )
@@ -226,7 +227,14 @@ func BarrierEvent(id uint64) *workerpb.Event {
 
 // Send delivers one event the way the connect handler does.
 func (n *Node) Send(sender string, ev *workerpb.Event) error {
-	return n.Op.HandleEvent(context.Background(), sender, ev)
+	return n.SendBatch(sender, ev)
+}
+
+// SendBatch hands one sender's batch to the operator the way a source runner of the same process does:
+// through the repository's embedded operator client (the connect handler treats a request the same way).
+func (n *Node) SendBatch(sender string, evs ...*workerpb.Event) error {
+	cl := rpc.NewOperatorEmbeddedClient(rpc.NewOperatorEmbeddedClientParams{Operator: n.Op, SenderID: sender, ID: n.ID})
+	return cl.HandleEventBatch(context.Background(), evs)
 }
 
 // ---- reading an operator's DKV checkpoint back
